@@ -108,6 +108,11 @@ MUTANTS = [
     ("scriptcache-not-initialised", SC, "\t\tscriptCache.Store(make(Map))\n", ""),
     ("acceptable-accepts-eof", R, "return err == nil || err == red.Nil || err == context.Canceled", "return err == nil || err == red.Nil || err == context.Canceled || err == io.EOF"),
     ("hook-clears-eof", HK, "err := cmd.Err()\n\th.endSpan(ctx, err)", "err := cmd.Err()\n\tif err == io.EOF {\n\t\tcmd.SetErr(nil)\n\t}\n\th.endSpan(ctx, err)"),
+    # round 9: call forms of variadic arguments; 32-bit build (unit lib/store/redis@386)
+    ("seeded-kv-pfadd-variadic-repacked", "PATCH", "/verif/seeded/C12/kv-pfadd-variadic-repacked/patch.diff"),
+    ("seeded-zscore-bounds-itoa-386", "PATCH", "/verif/seeded/C12/zscore-bounds-itoa-386/patch.diff"),
+    ("sadd-variadic-repacked", R, "node.SAdd(ctx, key, values...)", "node.SAdd(ctx, key, values)"),
+    ("zincrby-via-int-386", R, "node.ZIncrBy(ctx, key, float64(increment), member)", "node.ZIncrBy(ctx, key, float64(int(increment)), member)"),
     # kv
     ("kv-hdel-other-key", KV, "return node.HDelCtx(ctx, key, field)", "return node.HDelCtx(ctx, field, key)"),
     ("kv-get-wrong-node", KV, fn("GetCtx", "node, err := s.getRedis(key)", "node, err := s.getRedis(key + \"x\")")),
@@ -186,7 +191,7 @@ def main():
         viol = [l for l in out.splitlines() if l.startswith("VIOLATION") or l.startswith("  rule=")]
         rule = ""
         for l in out.splitlines():
-            mm = re.match(r"\s+rule=([\w-]+): (.*)", l)
+            mm = re.match(r"\s+rule=([\w@-]+): (.*)", l)
             if mm:
                 rule = mm.group(1) + " :: " + mm.group(2)[:230]
                 break
